@@ -39,7 +39,8 @@ theorem planLinked_hasLIB (cfg : Config) (s1 : FState) (b : Blk) (trig : Bool) (
       cases trig <;> rfl
 
 /-- what `plan` can return when the LIB is known and no inclusive starting block is awaited -/
-theorem plan_cases (cfg : Config) (s : FState) (b : Blk) (hni : s.includeInit = false) (hlib : s.db.libRef.id ≠ "") :
+theorem plan_cases (cfg : Config) (s : FState) (b : Blk)
+    (hni : s.includeInit = false ∨ s.lastSent.isSome = true ∨ b.id ≠ s.db.libRef.id) (hlib : s.db.libRef.id ≠ "") :
     ((∃ r, plan cfg s b = .done s r) ∧
       (b.id = b.parent ∨ (b.num < s.db.libRef.num ∧ s.lastSent.isSome = true) ∨
         switchSegments cfg s b (triggers cfg s b) = none ∨ (s.db.addLink b).2 = true)) ∨
@@ -53,7 +54,13 @@ theorem plan_cases (cfg : Config) (s : FState) (b : Blk) (hni : s.includeInit = 
     by_cases h2 : (decide (b.num < s.db.libRef.num) && s.lastSent.isSome) = true
     · rw [if_pos h2]; exact Or.inl ⟨⟨_, rfl⟩, Or.inr (Or.inl (by simpa using h2))⟩
     · rw [if_neg h2]
-      have h0 : ¬ ((s.includeInit && s.lastSent.isNone && b.id == s.db.libRef.id) = true) := by rw [hni]; simp
+      have h0 : ¬ ((s.includeInit && s.lastSent.isNone && b.id == s.db.libRef.id) = true) := by
+        rcases hni with h | h | h
+        · rw [h]; simp
+        · cases hl : s.lastSent with
+          | none => rw [hl] at h; cases h
+          | some l => simp
+        · simp [h]
       simp only
       rw [if_neg h0]
       cases hsw : switchSegments cfg s b (triggers cfg s b) with
@@ -313,5 +320,151 @@ theorem invalid_only_for_self_parent (cfg : Config) (s : FState) (b : Blk) (f : 
             · rw [if_pos c4] at hp; injection hp with _ h2; cases h2
             · rw [if_neg c4] at hp
               exact planLinked_not_invalid _ _ _ _ _ _ _ _ hp
+
+end BstreamVerif.Forkable
+
+namespace BstreamVerif.Forkable
+open BstreamVerif BstreamVerif.ForkDB
+
+/-! ### `includeInitialLIB` is a constant of the forkable -/
+
+theorem phase_incl (a : Acc) (evs : List Event) : (phase a evs).st = a.st := by
+  unfold phase; split <;> rfl
+
+theorem newStep_incl (cfg : Config) (head : Ref) (a : Acc) (e : Entry) :
+    (newStep cfg head a e).st.includeInit = a.st.includeInit := by
+  by_cases hf : a.failed = true
+  · rw [newStep_failed cfg head a e hf]
+  · have hf : a.failed = false := by simpa using hf
+    by_cases hs : isSent a.st.db e.blk.id = true
+    · rw [newStep_sent cfg head a e hf hs]
+    · have hs : isSent a.st.db e.blk.id = false := by simpa using hs
+      by_cases hd : cfg.matches .new = true
+      · cases hfa : a.failAt with
+        | none => rw [newStep_send_none cfg head a e hf hs hd hfa]; rfl
+        | some k =>
+          cases k with
+          | zero => rw [newStep_send_zero cfg head a e hf hs hd hfa]
+          | succ j => rw [newStep_send_succ cfg head a e hf hs hd j hfa]; rfl
+      · have hd : cfg.matches .new = false := by simpa using hd
+        rw [newStep_nosend cfg head a e hf hs hd]; rfl
+
+theorem foldl_newStep_incl (cfg : Config) (head : Ref) (ch : List Entry) (a : Acc) :
+    (ch.foldl (newStep cfg head) a).st.includeInit = a.st.includeInit := by
+  induction ch generalizing a with
+  | nil => rfl
+  | cons e t ih => simp only [List.foldl_cons]; rw [ih, newStep_incl]
+
+theorem processIrr_incl (cfg : Config) (a : Acc) (seg : List Entry) (head : Ref) (actual : Id → Option Blk) :
+    (processIrr cfg a seg head actual).st.includeInit = a.st.includeInit := by
+  rw [processIrr_eq]
+  split
+  · rfl
+  · split
+    · rw [phase_incl]
+    · unfold setSeen
+      cases seg.getLast? with
+      | none => simp only; rw [phase_incl]
+      | some l => simp only; rw [phase_incl]
+
+theorem advanceAcc_incl (cfg : Config) (a : Acc) (b : Blk) (fi : Option Entry) :
+    (advanceAcc cfg a b fi).st.includeInit = a.st.includeInit := by
+  unfold advanceAcc
+  split
+  · rfl
+  · split
+    · rfl
+    · split
+      · rfl
+      · simp only
+        split
+        · rfl
+        · rw [advanceTo_eq]
+          split
+          · rfl
+          · rw [processStalled_st, processIrr_incl]; rfl
+
+theorem emitSwitch_incl (cfg : Config) (s3 : FState) (b : Blk) (lc u r : List Entry) (j : Option Ref) (f : Option Nat) :
+    (emitSwitch cfg s3 b lc u r j f).st.includeInit = s3.includeInit := by
+  unfold emitSwitch processNew
+  rw [foldl_newStep_incl]
+  split <;> split <;> simp only [phase_incl]
+
+theorem initialAcc_incl (cfg : Config) (s : FState) (b : Blk) (f : Option Nat) :
+    (initialAcc cfg s b f).st.includeInit = s.includeInit := by
+  rw [initialAcc_eq]
+  have h0 : (initFirst cfg { s with db := (s.db.addLink b).1 } b f).st.includeInit = s.includeInit := by
+    unfold initFirst; split
+    · rw [phase_incl]
+    · rfl
+  split
+  · exact h0
+  · rw [processIrr_incl]; exact h0
+
+def Plan.incl : Plan → Bool
+  | .done s' _ => s'.includeInit
+  | .initial s' => s'.includeInit
+  | .switch s3 _ _ _ _ _ => s3.includeInit
+
+theorem planLinked_incl (cfg : Config) (s1 : FState) (b : Blk) (trig : Bool) (u r : List Entry) (j : Option Ref) :
+    (planLinked cfg s1 b trig u r j).incl = s1.includeInit := by
+  unfold planLinked
+  dsimp only
+  have h2 : (if s1.db.hasLIB = true then s1 else { s1 with db := s1.db.setLIB cfg.fsb b.ref b.lib }).includeInit = s1.includeInit := by
+    split <;> rfl
+  generalize (if s1.db.hasLIB = true then s1 else { s1 with db := s1.db.setLIB cfg.fsb b.ref b.lib }) = s2 at h2
+  by_cases c1 : (!s1.db.hasLIB && s2.db.hasLIB && s2.db.libRef.num == b.num) = true
+  · rw [if_pos c1]; exact h2
+  rw [if_neg c1]
+  by_cases c2 : (!s1.db.hasLIB && !s2.db.hasLIB && cfg.hold) = true
+  · rw [if_pos c2]; exact h2
+  rw [if_neg c2]
+  cases hc : computeLongestChain cfg s2 b with
+  | none => exact h2
+  | some l =>
+    cases l with
+    | nil => exact h2
+    | cons c cs =>
+      dsimp only
+      by_cases c3 : (!trig) = true
+      · rw [if_pos c3]; exact h2
+      · rw [if_neg c3]; exact h2
+
+theorem plan_incl (cfg : Config) (s : FState) (b : Blk) : (plan cfg s b).incl = s.includeInit := by
+  unfold plan
+  by_cases c1 : (b.id == b.parent) = true
+  · rw [if_pos c1]; rfl
+  rw [if_neg c1]
+  by_cases c2 : (decide (b.num < s.db.libRef.num) && s.lastSent.isSome) = true
+  · rw [if_pos c2]; rfl
+  rw [if_neg c2]
+  dsimp only
+  by_cases c3 : (s.includeInit && s.lastSent.isNone && b.id == s.db.libRef.id) = true
+  · rw [if_pos c3]; rfl
+  rw [if_neg c3]
+  cases hsw : switchSegments cfg s b (triggers cfg s b) with
+  | none => rfl
+  | some x =>
+    obtain ⟨u0, r0, j0⟩ := x
+    dsimp only
+    by_cases c4 : (s.db.addLink b).2 = true
+    · rw [if_pos c4]; rfl
+    · rw [if_neg c4]; exact planLinked_incl cfg _ b _ _ _ _
+
+/-- `ProcessBlock` never changes whether the forkable waits for an inclusive starting block -/
+theorem processBlock_includeInit (cfg : Config) (s : FState) (b : Blk) (f : Option Nat) :
+    (processBlock cfg s b f).1.includeInit = s.includeInit := by
+  have hplan := plan_incl cfg s b
+  unfold processBlock
+  cases hp : plan cfg s b with
+  | done s' r => rw [hp] at hplan; exact hplan
+  | initial s' =>
+    rw [hp] at hplan
+    simp only [processInitialInclusive, finish]
+    rw [initialAcc_incl]; exact hplan
+  | switch s3 lc u r j fi =>
+    rw [hp] at hplan
+    simp only [advanceLIB, finish]
+    rw [advanceAcc_incl, emitSwitch_incl]; exact hplan
 
 end BstreamVerif.Forkable
